@@ -36,6 +36,14 @@ func (b *quotesBuilder) build() string {
 	return b.inner.String()
 }
 
+// escapeLineBreaks keeps text taken from other libraries' errors or from user input on one line.
+func escapeLineBreaks(s string) string {
+	if !strings.ContainsAny(s, "\r\n") {
+		return s
+	}
+	return strings.NewReplacer("\r", `\r`, "\n", `\n`).Replace(s)
+}
+
 func quotes(ss []string) string {
 	l := len(ss)
 	if l == 0 {
